@@ -210,13 +210,23 @@ func (in *Interp) connWrite(fr *frame, dst Value, s Str) Value {
 	} else if wd == "armed" {
 		passed := raw.F["wdeadlinePassed"]
 		if passed == nil {
-			v := in.tt.Var("time.passes."+in.connName(dst)+".writeDeadline", BoolSort)
+			v := in.tt.Var(fmt.Sprintf("time.passes.%s.writeDeadline.%d", in.connName(dst), len(in.path.inputs)), BoolSort)
 			in.path.inputs = append(in.path.inputs, InputVar{Name: v.name, Kind: "bool", T: v})
 			passed = boolVal(v)
 			raw.F["wdeadlinePassed"] = passed
 		}
 		if in.branch(passed, "time passes beyond the write deadline") {
 			raw.F["wdeadline"] = "expired"
+			// the deadline may expire after part of the data has been sent (a client that reads
+			// slowly): with "partialWrites" the first half of a concrete buffer reaches the client
+			if pw, _ := raw.F["partialWrites"].(bool); pw {
+				if c, ok := s.Concrete(); ok && len(c) >= 2 {
+					half := CStr(c[:len(c)/2])
+					in.emit("write.partial", in.connName(dst))
+					raw.str = concatStr(raw.str, half)
+					raw.items2 = append(raw.items2, writeRec{s: half, layer: "partial"})
+				}
+			}
 			in.emit("write.timeout", in.connName(dst))
 			return in.newError(CStr("write: i/o timeout"), nil)
 		}
@@ -1438,6 +1448,7 @@ func (in *Interp) objMethod(fr *frame, o *Obj, name string, args []Value) Value 
 				return Iface{}
 			}
 			o.F["wdeadline"] = deadlineState(args[0])
+			delete(o.F, "wdeadlinePassed") // a new deadline: whether time runs past it is a new question
 			return Iface{}
 		case "RemoteAddr", "LocalAddr":
 			return in.ifaceOf(in.newObj("addr"))
